@@ -154,9 +154,24 @@ Definition create_proxy_request (c : cfg) (q : req) (internal : bool) (hh : host
 Definition s_POST : str := bytes "POST"%string.
 Definition retryable (m : str) : bool := negb (str_eqb m s_POST).
 
+(* The scripted origin is a little realistic: it answers 304 only to a conditional request;
+   an unconditional one gets a small complete 200 instead. *)
+Definition s_unconditional : str := bytes "unconditional"%string.
+Definition origin_answer (d : dlv) (b : behaviour) : behaviour :=
+  match b with
+  | BResp r =>
+    if Z.eqb (rs_status r) 304
+       && negb (nonempty (hget (d_hdrs d) (bytes "If-None-Match"%string)))
+       && negb (nonempty (hget (d_hdrs d) (bytes "If-Modified-Since"%string)))
+    then BResp (mkResp 200 [(bytes "Content-Type"%string, [bytes "text/plain"%string]); (bytes "Content-Length"%string, [bytes "13"%string])] s_unconditional)
+    else b
+  | BErr => b
+  end.
+
 (* n further attempts after a failure *)
 Fixpoint perform_loop (n : nat) (sc : script) (d : dlv) (log : list dlv) : script * list dlv * option resp :=
-  let (sc', b) := script_pop sc (url_host (d_url d)) in
+  let (sc', b0) := script_pop sc (url_host (d_url d)) in
+  let b := origin_answer d b0 in
   match b with
   | BResp r => (sc', log ++ [d], Some r)
   | BErr => match n with
